@@ -202,23 +202,21 @@ Section Plain.
           { destruct (ps_src _ _ _ _ (class_pairs_fits c u ok _ _ cl fs m Hwc Hnames Hfe) (var, x) Hvv) as [_ [_ [Hw|[f0 [t0 [l0 [_ [_ [_ [El Hil]]]]]]]]]]; cbn [fst snd] in *.
             - unfold pair_whole in Hw. cbn [fst snd] in Hw. rewrite Hw. apply (noq_field cl fs var Hnq).
             - apply (noq_item t0 l0 x); [rewrite <- El; apply (noq_field cl fs var Hnq)|exact Hil]. }
-          assert (Hexy : forall kd y, v_clazz var = Some kd -> v_tokens_factory var = None -> In y (occ var x) ->
+          assert (Hexy : forall kd y, v_clazz var = Some kd -> v_tokens_factory var = None -> In y (occ var x) -> y <> VNone ->
                     exact_classes u n kd y = true).
-          { intros kd y Hcl Htf Hy.
-            assert (Hnl : v_nillable var = false).
-            { destruct Hev as [Hw0 _].
-              destruct (wf_elem_inv var Hw0) as [_ [_ [[k0 [Hty0 _]]|[[t0 [_ [_ Hc0]]]|[_ [Hc0 _]]]]]];
-                [apply (wf_elem_nonil_class var k0 Hw0 Hty0)|congruence|congruence]. }
+          { intros kd y Hcl Htf Hy Hyn0.
+            assert (Hnone : In y (if v_nillable var then [VNone] else []) -> False).
+            { destruct (v_nillable var); [intros [E|[]]; congruence|intros []]. }
             cbn [exact_classes] in Hex. rewrite Hm in Hex. apply andb_true_iff in Hex as [_ Hex].
             destruct Hev as [_ Hine]. rewrite forallb_forall in Hex. specialize (Hex _ Hine). cbn [snd forallb] in Hex.
             rewrite andb_true_r, Hcl in Hex.
             destruct (ps_src _ _ _ _ (class_pairs_fits c u ok _ _ cl fs m Hwc Hnames Hfe) (var, x) Hvv)
               as [_ [Hxn [Hw|[f0 [t0 [l0 [_ [_ [_ [El Hil]]]]]]]]]]; cbn [fst snd] in *.
             - unfold pair_whole in Hw. cbn [fst snd] in Hw. rewrite <- Hw in Hex.
-              unfold occ in Hy. rewrite Htf in Hy. destruct x as [| |tt l| | | |]; rewrite ?Hnl in Hy; try (now destruct Hy); try destruct Hy as [<-|[]]; try exact Hex; try congruence.
+              unfold occ in Hy. rewrite Htf in Hy. destruct x as [| |tt l| | | |]; try (now destruct (Hnone Hy)); try destruct Hy as [<-|[]]; try exact Hex; try congruence.
               rewrite forallb_forall in Hex. apply (Hex y Hy).
             - rewrite El in Hex. rewrite forallb_forall in Hex. specialize (Hex x Hil).
-              unfold occ in Hy. rewrite Htf in Hy. destruct x as [| |tt l| | | |]; rewrite ?Hnl in Hy; try (now destruct Hy); try destruct Hy as [<-|[]]; try exact Hex; try congruence.
+              unfold occ in Hy. rewrite Htf in Hy. destruct x as [| |tt l| | | |]; try (now destruct (Hnone Hy)); try destruct Hy as [<-|[]]; try exact Hex; try congruence.
               destruct n; discriminate Hex. }
           assert (Hitem : forall y, In y (occ var x) ->
                     (exists q a k, ienode c u ign n var y = EElem q a k) /\ plain_tree (ienode c u ign n var y) = true).
@@ -234,7 +232,7 @@ Section Plain.
             pose proof (noq_occ var x y Hnx Hy) as Hny.
             destruct (wf_elem_inv var Hw) as [_ [_ [[k [Hty [Hcl Htf]]]|[[t [Hty [Hst Hcl]]]|[Hty [_ Htf3]]]]]].
             3:{ rewrite Htf3 in *. destruct (fits_item_qname c u ok _ var y Hty Hok) as [q1 [-> _]]. discriminate Hny. }
-            - pose proof (Hexy k y Hcl Htf Hy) as Hey.
+            - pose proof (Hexy k y Hcl Htf Hy Hyn) as Hey.
               rewrite Htf in *. destruct (fits_item_class c u ok _ var k y Hty Hok) as [cl' [fs' [-> Hfk0]]].
               assert (Ecl : cl' = k).
               { destruct n as [|n']; [discriminate Hey|]. cbn [exact_classes] in Hey. apply andb_true_iff in Hey as [Hey _].
